@@ -1,7 +1,7 @@
 CONSTANTS
   Dev = {"RecordExisting", "NoCheckOnWrite", "KwDstIsSrc"}
-  MaxSteps = 3
-  AllVias = FALSE
+  MaxSteps = 2
+  AllVias = TRUE
 SPECIFICATION Spec
 INVARIANT TypeOK
 INVARIANT Attributed
